@@ -46,7 +46,7 @@ FLOORS = {
     "P1": 3, "P2": 2, "P3": 5, "P4": 1, "P5": 2, "P6": 9, "P7": 5, "P8": 1, "P9": 1, "P10": 1, "P11": 1, "P12": 1, "P13": 1,
     "E7": 30, "U1": 5, "S2": 12, "S3": 15, "G1": 3, "G2": 5, "G3": 8, "G4": 5, "G5": 1, "S1b": 6, "M1": 1,
     "N1": 25, "N2": 8, "O4": 2, "O5": 4, "O6": 1, "O7": 2, "V1": 10, "V2": 1, "S4": 1, "S5": 2, "S6": 10, "S7": 4, "S8": 1, "S1c": 12,
-    "V3": 3, "G6": 1, "J1": 2, "P14": 1, "F12": 1, "P15": 1,
+    "V3": 3, "G6": 1, "J1": 2, "P14": 1, "F12": 1, "G7": 1, "P15": 1,
 }
 
 PROPERTIES = {}
@@ -113,8 +113,9 @@ prop(
            _t(T.rule_T3g, rows=("running", "pausing", "paused", "resuming")),
            _t(T.rule_T3h, rows=("pausing",)), _t(T.rule_T3e),
            _t(T.rule_T3f), _t(T.rule_T4f), _t(T.rule_T4a), P.rule_P2, P.rule_P10, P.rule_P13,
-           E.rule_F7],
-    controls=[K.ctl_wf_drop_failed_cell, K.ctl_term_only_if_task_completed],
+           E.rule_F7, SH.rule_G7],
+    controls=[K.ctl_wf_drop_failed_cell, K.ctl_term_only_if_task_completed,
+              K.ctl_stale_retry_delay],
     exhaustive=True,
     explanation=(
         "Decides the structural clauses of pause/resume: pausing and paused are not offering "
@@ -124,7 +125,9 @@ prop(
         "completes a workflow only when nothing is in flight, staged or paused; a running "
         "with-items task receives the pause; a completion - by a task event or by the resume "
         "request itself - leaves a terminal record behind so that the output is rendered as in "
-        "the run without a pause (P10; the request path is known finding D20). NOT decided: the "
+        "the run without a pause (P10; the request path is known finding D20); what is offered "
+        "together after a resume is rendered entry by entry - no value computed for one staged "
+        "entry (its retry delay, say) is carried into the rendering of the next (G7). NOT decided: the "
         "twin-run relation (same final "
         "status, tasks, errors, output as the unpaused history) at every insertion point."),
     assumptions=[A1, A_SPEC, A_AST],
@@ -299,8 +302,8 @@ prop(
     "C01",
     anchor_modules=ENGINE_MODS,
     rules=[P.rule_P1, P.rule_P2, P.rule_P3, P.rule_P4, P.rule_P9, PU.rule_V2, G.rule_G3,
-           P.rule_P14, SH.rule_P15],
-    controls=[K.ctl_offer_completed_entries, K.ctl_stage_without_criteria,
+           P.rule_P14, SH.rule_P15, SH.rule_G7],
+    controls=[K.ctl_stale_retry_delay, K.ctl_offer_completed_entries, K.ctl_stage_without_criteria,
               K.ctl_keep_started_task_staged, K.ctl_route_without_append,
               K.ctl_falsy_result_dropped, K.ctl_swallow_report,
               K.ctl_skip_transitions_when_canceling],
@@ -354,8 +357,8 @@ prop(
 prop(
     "C13",
     anchor_modules=ENGINE_MODS,
-    rules=[P.rule_P6, _t(T.rule_T4e), E.rule_O1],
-    controls=[K.ctl_retry_off_by_one],
+    rules=[P.rule_P6, _t(T.rule_T4e), E.rule_O1, SH.rule_G7],
+    controls=[K.ctl_retry_off_by_one, K.ctl_stale_retry_delay],
     explanation=(
         "Decides the structural clauses of retry: the retry decision (an if whose test calls "
         "_evaluate_task_retry) precedes, in update_task_state, every write of transition "
